@@ -50,6 +50,7 @@ func (c *Module) Connect(conn *sqlite.Conn, args []string,
 
 	err = declare(table.SchemaString)
 	if err != nil {
+		table.Disconnect()
 		return nil, fmt.Errorf("declare: %w", err)
 	}
 
